@@ -81,5 +81,9 @@ let with_case toks k =
 
 let c10 toks = with_case toks (fun cfg h mc req -> show_out (dp_serve cfg h mc req))
 
+let c10a toks = with_case toks (fun cfg h mc req ->
+    String.concat " || " (List.map show_out (dp_allowed_outs cfg h mc req)))
+
 let () =
+  register "c10a" c10a;
   register "c10" c10
